@@ -42,6 +42,13 @@ fn start(run: &Arc<Run>, key: u8, idx: i64) -> (Network, Arc<std::sync::atomic::
     (net, live)
 }
 
+fn thread_count() -> usize {
+    std::fs::read_to_string("/proc/self/status")
+        .ok()
+        .and_then(|s| s.lines().find(|l| l.starts_with("Threads:")).and_then(|l| l.split_whitespace().nth(1).and_then(|n| n.parse().ok())))
+        .unwrap_or(0)
+}
+
 pub fn main(a: &Args) -> i32 {
     install_panic_hook();
     let seed0 = a.u64("seed", 1);
@@ -87,6 +94,7 @@ pub fn main(a: &Args) -> i32 {
                 _ => "h.closing",
             });
         }
+        let threads_before = thread_count();
         let rt = tokio::runtime::Builder::new_multi_thread().worker_threads(workers).enable_all().build().unwrap();
         let mut a_live = None;
         let (a_net, b_net) = rt.block_on(async {
@@ -324,6 +332,18 @@ pub fn main(a: &Args) -> i32 {
         }
         drop(keep);
         std::thread::sleep(Duration::from_millis(50));
+        // every thread of the torn-down runtime ends; one that is still there seconds later is stuck
+        // inside a poll (a lock it can never get, a loop that never yields)
+        if !hang {
+            let t1 = Instant::now();
+            while thread_count() > threads_before && t1.elapsed() < Duration::from_secs(4) {
+                std::thread::sleep(Duration::from_millis(50));
+            }
+            let extra = thread_count().saturating_sub(threads_before);
+            if extra > 0 {
+                leaks.push(format!("{extra} thread(s) of the torn-down runtime are still running 4 s later (stuck inside a poll)"));
+            }
+        }
         let panics = run.panics();
         run.end_global();
         anemo::verif::set_block_gate(None);
